@@ -209,6 +209,32 @@ func runC08(t *testing.T, tier string) int {
 			}
 		}
 	}
+	// every quoted attribute name over a small character alphabet up to length 3
+	// (identifier-like, digit-leading, punctuation, space, unicode letter and
+	// digit, escape-needing characters): print / re-parse must round-trip each
+	nameChars := []string{"a", "1", "_", "-", " ", "é", ".", `\"`, "٣", `\\`}
+	var qnames []string
+	var gen func(prefix string, l int)
+	gen = func(prefix string, l int) {
+		if l > 0 {
+			qnames = append(qnames, `"`+prefix+`"`)
+		}
+		if l == 3 {
+			return
+		}
+		for _, c := range nameChars {
+			gen(prefix+c, l+1)
+		}
+	}
+	gen("", 0)
+	firstName := len(sentences)
+	for _, qn := range qnames {
+		sentences = append(sentences,
+			[]string{"attributes", ":", qn},
+			[]string{"attributes", ".", qn, "=", qn},
+			[]string{"NOT", "hasPrefix", "(", "attributes", ".", qn, ",", qn, ")"})
+	}
+	nameSentences := 3 * len(qnames)
 	mutTokens := append(append([]string{}, tokenClasses...), "AND", `""`, "é", "!", "attributes:x")
 	var mutated int64
 	var rejectedForStore []string
@@ -230,6 +256,9 @@ func runC08(t *testing.T, tier string) int {
 			}
 		}
 		try(s)
+		if i >= firstName && i < firstName+nameSentences {
+			return // quoted-name corpus: round trip only, no token mutations
+		}
 		if len(s) > 12 && tier != "thorough" && i%5 != 0 {
 			return // mutations of the longest sentences: every 5th in the quick tier
 		}
@@ -279,6 +308,7 @@ func runC08(t *testing.T, tier string) int {
 		"token_sequences":     tokenSeqs,
 		"max_token_len":       L,
 		"sentence_variants":   mutated,
+		"quoted_names_roundtripped": len(qnames),
 		"accepted":            st.accepted,
 		"rejected":            st.rejected,
 		"dont_care":           st.dontCare,
